@@ -517,6 +517,14 @@ def cases(tier):
         yield dict(base, tag="number-like names, path", k=1, edges=[[nm[0], nm[1], None], [nm[1], nm[2], None], [nm[2], nm[3], None]], nodes={v: 2 for v in nm[:4]}, isolated=[])
         yield dict(base, tag="number-like names, diamond", k=2, edges=[[nm[1], nm[0], None], [nm[1], nm[4], None], [nm[0], nm[3], None], [nm[4], nm[3], None]],
                    nodes={nm[1]: 2, nm[0]: 1, nm[4]: 1, nm[3]: 2}, isolated=[])
+    # node-weighted min-models whose optimal weights all occur among the node values: the guessed-weights shortcut answers with ITS OWN inner model's
+    # solution, which must be translated back to the caller's node names like any other
+    for model, edges in (("MinFlowDecompCycles", [["s", "a", None], ["a", "b", None], ["b", "a", None], ["a", "t", None], ["a", "c", None], ["c", "t", None]]),
+                         ("MinFlowDecomp", [["s", "a", None], ["a", "t", None], ["a", "c", None], ["c", "t", None]])):
+        nodes = {"s": 5, "a": 7, "b": 2, "c": 3, "t": 5} if model.endswith("Cycles") else {"s": 5, "a": 5, "c": 3, "t": 5}
+        for opts in ({"optimize_with_guessed_weights": True}, {"optimize_with_greedy": False, "optimize_with_guessed_weights": True}):
+            yield dict(model=model, names="N1", origin="node", wt="int", starts=[], ends=[], ignore=[], opts=opts, cons=[], cov=1.0, tag="guessed weights reused, node mode", k=None,
+                       edges=edges, nodes=nodes, isolated=[])
 
 
 # ---------------------------------------------------------------------------------------------------------------------
